@@ -68,8 +68,12 @@ def run(ctx):
                 if o["acc"] and not h["ok"]:
                     uns += 1
                     nvalid = len({s[1] for s in h["sigs"] if s[0] == "g" and 1 <= s[1] <= N})
-                    if h["acc"] and h["dup"]:
-                        key = KNOWN
+                    if any(k > N for k in h["bk"]):
+                        key = "SyncBlockHeader:unsound-accept:non-peer-bookkeeper"
+                    elif 3 * len(h["bk"]) < 2 * N:
+                        key = "SyncBlockHeader:unsound-accept:list-shorter-than-two-thirds"
+                    elif h["acc"] and h["dup"]:
+                        key = KNOWN          # long enough list of peers, but one peer listed (and counted) several times
                     elif h["acc"]:
                         key = "SyncBlockHeader:unsound-accept:list-length-threshold-below-two-thirds"
                     else:
